@@ -240,6 +240,12 @@ inductive Stmt where
   | b64Decode (err : Nat)
   /-- osc() 52: `vt.vx.ClipboardPush(string(decodedBytes))` (a nil dereference without a Vaxis) -/
   | clipPush
+  /-- inline arms of esc() / c0() / csi(): `vt.charsets.singleShift = b`, `vt.charsets.selected = g<n>`,
+      `vt.charsets.designations[g<k>] = ascii (0) | decSpecialAndLineDrawing (1)`, `vt.cursor.style = vaxis.CursorStyle(e)` -/
+  | setSS (b : Bool)
+  | setSel (n : Nat)
+  | setDesig (k v : Nat)
+  | setShape (x : Ex)
   /-- `fmt.Fprintf(vt.pty, …)`: a reply to the child; no effect on the emulator state -/
   | reply
   /-- `ch := vt.activeScreen[r][c]` (a copy of the cell, held in the frame) -/
